@@ -56,4 +56,8 @@ pub(crate) trait ArenaAllocator {
 
     /// No more allocation, reclaim memory if possible.
     fn finish(&mut self);
+
+    /// Leak the memory of this allocator (so that it is never reused) and leave it empty.
+    #[cfg(feature = "verif_hooks")]
+    fn verif_quarantine(&mut self);
 }
